@@ -308,3 +308,37 @@ Definition SENDER : N := 9.
 Definition charge (fee : N) (base : layer) : layer :=
   mkL ((GASNS, SENDER, Some (dflt (lookup (GASNS, SENDER) (lst base)) - fee)) :: lst base) (lnc base).
 Definition apply_tx (pol : policy) (base : layer) (fee : N) (p : prog) : txout := run_tx pol (charge fee base) p.
+
+(* ---------- a block: storeBlock runs all transactions on ONE reused VM ----------
+   What survives from one transaction to the next: the block-level DAO (cache) and the VM object.  Per
+   transaction: newInteropContext (fresh Notifications, d.GetPrivate()), ReuseVM -> VM.Reset (istack and estack
+   cut to zero, uncaughtException = nil).  A fault does NOT unload contexts, so the register may well be set
+   when a faulted transaction ends; [reset] is VM.Reset's assignment. *)
+Definition tx_step (pol : policy) (reset : bool) (st : layer * bool) (p : prog) : (layer * bool) * txout :=
+  let '(base, reg) := st in
+  let s0 := mkM [mkL [] None; base] [] (if reset then false else reg) in
+  match exec pol p ENTRY fAll false s0 with
+  | Normal s' => (match commit (lay s') with [b] => b | _ => bottom s' end, exc s', mkOut true (match commit (lay s') with [b] => b | _ => bottom s' end) (ntf s'))
+  | Thrown s' => (bottom s', exc s', mkOut false (bottom s') (ntf s'))
+  | Fault s' => (bottom s', exc s', mkOut false (bottom s') (ntf s'))
+  end.
+Fixpoint run_txs (pol : policy) (reset : bool) (st : layer * bool) (ps : list prog) : (layer * bool) * list txout :=
+  match ps with
+  | [] => (st, [])
+  | p :: r => let '(st1, o) := tx_step pol reset st p in
+              let '(st2, os) := run_txs pol reset st1 r in
+              (st2, o :: os)
+  end.
+(* GAS.OnPersist burns all fees first, then the transactions run in order *)
+Definition apply_block (pol : policy) (base : layer) (txs : list (N * prog)) : layer * list txout :=
+  let '(st, os) := run_txs pol true (fold_left (fun b t => charge (fst t) b) txs base, false) (map snd txs) in
+  (fst st, os).
+
+(* the reference: every transaction alone, on what the halted ones before it left *)
+Fixpoint seq_txs (pol : policy) (base : layer) (ps : list prog) : layer * list txout :=
+  match ps with
+  | [] => (base, [])
+  | p :: r => let o := run_tx pol base p in
+              let '(b, os) := seq_txs pol (after o) r in
+              (b, o :: os)
+  end.
